@@ -570,8 +570,11 @@ MtCase parseManaged(const std::string &text) {
 }
 
 rc::Gen<uint32_t> genDelay() {
-  return rc::gen::weightedOneOf<uint32_t>({{3, just<uint32_t>(0)}, {4, range<uint32_t>(1, 30)},
-                                           {3, range<uint32_t>(31, 150)}, {2, range<uint32_t>(151, 500)}});
+  // 0..500 us as planned; one in 25 delays is long (up to 4 ms): on a loaded box a new thread can need
+  // milliseconds to get a CPU, and then only such a delay still makes "d1 > d2" mean "child first"
+  return rc::gen::weightedOneOf<uint32_t>({{6, just<uint32_t>(0)}, {8, range<uint32_t>(1, 30)},
+                                           {6, range<uint32_t>(31, 150)}, {4, range<uint32_t>(151, 500)},
+                                           {1, range<uint32_t>(501, 4000)}});
 }
 
 rc::Gen<MtCase> genManaged() {
